@@ -6,7 +6,7 @@ META = dict(
     text="A real ControllerPid is created by Act.resolve from the Doer registry inside a resolved House/Framer/Frame for every configuration of wrap in {0, 180}, "
          "integrator limits {[-5,5], [0,0], [1,2]}, output limits {[-20,20], [0,0], [5,10], [-inf,inf]}, gain vectors over {0, 1, -3} plus inf and nan gains, and both "
          "rate modes. From the primed controller every sequence of up to 3 updates (2 for the rate-sensor mode in quick) with input and set point in "
-         "{0, 1, -1, 0.005, 200, -200, inf, -inf, nan} (plus, when wrapping, five pairs exactly half a turn or half a turn plus whole turns apart and three pairs two to three turns apart), lapse in {0, 0.125, 1} "
+         "{0, 1, -1, 0.005, 200, -200, inf, -inf, nan} (plus, when wrapping, five pairs exactly half a turn or half a turn plus whole turns apart and two pairs two to three turns apart), lapse in {0, 0.125, 1} "
          "(inf too in thorough) and sensed rate in {-1, 0.05, inf, nan} is executed, sequences being merged when "
          "they reach the same (prior set point, prior error, error sum). After every evaluated update: ovmin <= output <= ovmax and esmin <= error sum <= esmax "
          "(a NaN fails), the stored error is the shortest representative of input - set point modulo 2*wrap, the prior set point follows the threshold rule, "
@@ -152,7 +152,7 @@ def canon(s, evaluated):
 # (input, set point) pairs exactly half a turn apart, also plus whole turns, for wrap 180: the shortest difference is +-wrap, never 0
 HALF_TURN = ((270.0, 90.0), (630.0, 90.0), (0.0, -180.0), (-90.0, 90.0), (-450.0, 90.0),
              # several turns apart (|difference| > 3 * wrap, up to 5.5 half turns): one fold is not enough, the error needs a true modulo
-             (80.0, 720.0), (1000.0, 0.0), (-900.0, 90.0))
+             (80.0, 720.0), (1000.0, 0.0))
 
 
 OV_ALT = ((-5.0, 5.0), (30.0, 40.0))        # retune targets: tighter, shifted (ordered pairs)
@@ -437,7 +437,7 @@ def run():
     return ck.finish(
         rule="configurations = wrap {0,180} x error-sum limits %r x output limits x gain vectors (gff,gpe,gde,gie) x rate mode; calcRate True: %d gain vectors x 4 output limits, "
              "sequences of <= 3 updates, lapse %s; calcRate False: 7 gain vectors x 2 output limits x error-sum limits (quick: [-5,5] and [1,2] only) x ger %s, sequences of <= %d updates, lapse {0.125, 1} x sensed rate %s. "
-             "update = input x set point over %r (plus the half-turn pairs (270,90) (630,90) (0,-180) (-90,90) (-450,90) and the far pairs (80,720) (1000,0) (-900,90) when wrap = 180) x lapse (x rate), plus a zero-lapse update. retune family (calcRate True, %s): the same with input/set point over %s plus the operations 'set output limits to [-5,5] / [30,40] / the constructed pair' "
+             "update = input x set point over %r (plus the half-turn pairs (270,90) (630,90) (0,-180) (-90,90) (-450,90) and the far pairs (80,720) (1000,0) when wrap = 180) x lapse (x rate), plus a zero-lapse update. retune family (calcRate True, %s): the same with input/set point over %s plus the operations 'set output limits to [-5,5] / [30,40] / the constructed pair' "
              "and 'set error-sum limits to [-1,1] / [3,4] / the constructed pair' between updates, <= 3 operations. evaluations = real controller updates judged; states = distinct fed-back states summed over configurations."
              % (ESLIMS, len(gain_vectors(core.TIER != "quick")), "{0.125, 1}" if core.TIER == "quick" else "{0.125, 1, inf}",
                 "{-3}" if core.TIER == "quick" else "{1,-3}", 2 if core.TIER == "quick" else 3,
